@@ -22,7 +22,7 @@ From LV Require Import Base.Bytes Base.Sx Model.Obj Model.DocQ Gen.Crypto
   Spec.Crypto.Iso Spec.Crypto.IsoConcrete
   Proofs.CryptoProofs Proofs.CryptoProofsFilter Proofs.CryptoProofsObject Proofs.IsoProofs Proofs.IsoProofsData
   Proofs.CryptoProofsDoc Proofs.IsoProofsObj Proofs.IsoProofsFilter Proofs.IsoProofsAuth Proofs.IsoProofsDoc Proofs.IsoProofsRT
-  Proofs.IsoProofsDoc2 Proofs.IsoProofsExamples Proofs.CryptoProofsAES.
+  Proofs.IsoProofsDoc2 Proofs.IsoProofsPerms Proofs.IsoProofsExamples Proofs.CryptoProofsAES.
 Local Open Scope N_scope.
 
 (* ---------------- rung 1: constants and formulations ---------------- *)
@@ -146,23 +146,67 @@ Theorem C06_alg12 : forall P a R pw, pa_revision a = R ->
   auth_owner_r6 P a pw = if alg12 (iprims_of P) R (pa_O a) (pa_U a) pw then Ok tt else Err D_IncorrectPassword.
 Proof. exact alg12_refines. Qed.
 
-(* Algorithm 13: lopdf accepts every Perms the standard accepts (it compares 3 of the 4 permission bytes) whose
-   byte 8 is the 'T'/'F' Algorithm 10 (c) writes -- lopdf checks that byte, the standard's text does not *)
-Theorem C06_alg13_partial : forall P a Pz em fek,
+(* Algorithm 13, direction standard -> lopdf: lopdf accepts every Perms the standard accepts (it compares 3 of the 4
+   permission bytes) whose byte 8 is the 'T'/'F' Algorithm 10 (c) writes -- lopdf checks that byte, the standard's
+   text does not.  The other direction: C06_alg13_two_way below. *)
+Theorem C06_alg13_forward : forall P a Pz em fek,
   pa_perms a = perms_of_Z Pz -> conforming_P Pz = true -> pa_encrypt_metadata a = em ->
   alg13 (iprims_of P) Pz fek (pa_perms_enc a) = true ->
   nth 8 (p_aes_dec P fek (pa_perms_enc a)) x00 = (if em then "T"%byte else "F"%byte) ->
   validate_permissions P a fek = Ok tt.
 Proof. exact alg13_refines. Qed.
 
-(* Algorithm 2.A: whenever the standard retrieves a key (owner or user password, Perms valid), lopdf retrieves
-   the same key.  Partial in the other direction: with the owner password lopdf does not look at Perms at all. *)
-Theorem C06_alg2A_partial : forall P a R O U OE UE Perms Pz em pw k,
+(* Algorithm 2.A, direction standard -> lopdf: whenever the standard retrieves a key (owner or user password, Perms
+   valid), lopdf retrieves the same key.  The other direction: C06_alg2A_converse below. *)
+Theorem C06_alg2A_forward : forall P a R O U OE UE Perms Pz em pw k,
   matches_r6 a R O U OE UE Perms Pz em ->
   alg2A (iprims_of P) R O U OE UE Perms Pz pw = Some k ->
   nth 8 (p_aes_dec P k Perms) x00 = (if em then "T"%byte else "F"%byte) ->
   compute_fek_r6 P a pw = Ok k.
 Proof. exact alg2A_refines. Qed.
+
+(* Algorithm 13, exactly: what lopdf's validate_permissions checks -- bytes 9-11 = "adb", bytes 0-2 (the standard:
+   0-3) equal to P's, byte 8 = 'T' / 'F' according to EncryptMetadata (not in the standard's text) *)
+Theorem C06_alg13_exact : forall P a Pz em fek,
+  pa_perms a = perms_of_Z Pz -> conforming_P Pz = true -> pa_encrypt_metadata a = em ->
+  let b := p_aes_dec P fek (pa_perms_enc a) in
+  validate_permissions P a fek = Ok tt <->
+  (bytes_eqb (sub b 9 3) [x61; x64; x62] = true /\ firstn 3 b = firstn 3 (le_bytes 4 (P_u32 Pz)) /\ nth 8 b x00 = TF em).
+Proof. exact validate_permissions_iff. Qed.
+
+(* Algorithm 13 in both directions: whenever byte 3 of the decrypted Perms is 0xFF -- which it is in every block
+   Algorithm 10 makes from a conforming P (C06_perms_block_shape): bits 25-32 are reserved ones --, lopdf accepts
+   exactly the Perms the standard accepts whose byte 8 is the T/F of Algorithm 10 (c).  The superset lopdf accepts
+   consists of Perms no conforming writer produces (byte 3 differing from P's); accepting them changes no key, hash
+   or ciphertext, and both interoperability statements of the property quantify over conforming writers. *)
+Theorem C06_alg13_two_way : forall P a Pz em fek,
+  pa_perms a = perms_of_Z Pz -> conforming_P Pz = true -> pa_encrypt_metadata a = em ->
+  let b := p_aes_dec P fek (pa_perms_enc a) in
+  (4 <= length b)%nat -> nth 3 b x00 = xff ->
+  (validate_permissions P a fek = Ok tt <-> alg13 (iprims_of P) Pz fek (pa_perms_enc a) = true /\ nth 8 b x00 = TF em).
+Proof. exact alg13_two_way. Qed.
+
+Theorem C06_perms_block_shape : forall Pz em rnd, conforming_P Pz = true ->
+  length (perms_block Pz em rnd) = 16%nat /\ nth 3 (perms_block Pz em rnd) x00 = xff /\
+  nth 8 (perms_block Pz em rnd) x00 = TF em.
+Proof. exact perms_block_shape. Qed.
+
+(* Algorithm 2.A, the other direction: a key lopdf retrieves is the key the standard retrieves, provided Perms is
+   valid for it by the standard's Algorithm 13 (lopdf does not look at Perms on the owner path, Algorithm 2.A (f)
+   does: again a superset of files no conforming writer produces) *)
+Theorem C06_alg2A_converse : forall P a R O U OE UE Perms Pz em,
+  matches_r6 a R O U OE UE Perms Pz em -> forall pw k,
+  compute_fek_r6 P a pw = Ok k -> alg13 (iprims_of P) Pz k Perms = true ->
+  alg2A (iprims_of P) R O U OE UE Perms Pz pw = Some k.
+Proof. exact alg2A_converse. Qed.
+
+(* and a password that is neither the owner password (Algorithm 12) nor the user password (Algorithm 11) is rejected
+   by both *)
+Theorem C06_alg2A_reject : forall P a R O U OE UE Perms Pz em,
+  matches_r6 a R O U OE UE Perms Pz em -> forall pw,
+  alg12 (iprims_of P) R O U pw = false -> alg11 (iprims_of P) R U pw = false ->
+  compute_fek_r6 P a pw = Err D_IncorrectPassword /\ alg2A (iprims_of P) R O U OE UE Perms Pz pw = None.
+Proof. exact alg2A_reject. Qed.
 
 (* ---------------- rung 3: data, crypt filters, objects ---------------- *)
 (* Algorithm 1 / 1.A: the bytes lopdf writes for one string or stream are the bytes the standard defines (key, IV
@@ -448,8 +492,13 @@ Print Assumptions C06_alg9.
 Print Assumptions C06_alg10.
 Print Assumptions C06_alg11.
 Print Assumptions C06_alg12.
-Print Assumptions C06_alg13_partial.
-Print Assumptions C06_alg2A_partial.
+Print Assumptions C06_alg13_forward.
+Print Assumptions C06_alg2A_forward.
+Print Assumptions C06_alg13_exact.
+Print Assumptions C06_alg13_two_way.
+Print Assumptions C06_perms_block_shape.
+Print Assumptions C06_alg2A_converse.
+Print Assumptions C06_alg2A_reject.
 Print Assumptions C06_alg1_encrypt.
 Print Assumptions C06_iso_data_lopdf_decrypt.
 Print Assumptions C06_lopdf_data_iso_decrypt.
